@@ -1,26 +1,155 @@
 """Which machinery decides which property (the single source for ./check and MANIFEST.json)."""
 
-# unit -> short description (units live in spec/units/<unit>.vrs)
 UNITS = {
     'fixed_pkv_off': 'FixedMethod::process_key_value, old vowel-sign order off, vs the C12 rule chain',
     'fixed_pkv_on': 'FixedMethod::process_key_value, old vowel-sign order on, vs the C14 transition function',
+    'fixed_pkv_common': 'FixedMethod::process_key_value, clauses common to both orders (reph dispatch, session opening, frame)',
+    'fixed_reph': 'FixedMethod::{insert_old_style_reph, is_reph_moveable}: conservation, scan contract, placement',
+    'fixed_session': 'FixedMethod API functions + create_dictionary_suggestion (functional list)',
+    'layout': 'Layout::get_char_for_key (all 65536 codes), keycode_to_char, get_modifiers, LayoutModifiers::from',
+    'rank': 'Rank constructors/comparator, Suggestion constructors/read-outs',
+    'util': 'smart_quoter, push_checked, SplittedString accessors, split_spec lemmas, character classes',
+    'phon': 'PhoneticSuggestion::{add_suffix_to_suggestions, suggest_only_phonetic, suggestion_with_dict, suggest, get_prev_selection}',
+    'pmeth': 'PhoneticMethod under an adversarial environment (new, key, backspace, commit, update_engine)',
 }
 
-# property -> plan
+COMMON_TRUST = ('Trusted: Verus/Z3/rustc; the extractor/assembler (round-trip checked, item hashes in the evidence); std contracts '
+                'added by assume_specification and the external_body stubs listed mechanically in evidence.coverage.trusted_base; '
+                'src/context.rs (dyn dispatch, RefCell) is pinned glue read by hand. ')
+
 PLAN = {
+    'C01': {
+        'level': 'proof', 'safety': True,
+        'units': ['fixed_pkv_common', 'fixed_reph', 'fixed_session', 'layout', 'rank', 'util', 'phon', 'pmeth'],
+        'technique': 'Verus built-in safety obligations (unwrap/index/slice/overflow/termination) on extracted real functions under data-structure invariants',
+        'claim': 'Every extracted riti function (both methods, Rank/Suggestion, layout, utility) is proved free of panics, failed unwraps, out-of-bounds or off-boundary slices, arithmetic overflow and non-termination for ALL inputs satisfying the stated invariants (ASCII buffer, memo transparency, in-range commit index), and every API operation is proved to re-establish those invariants; keys without a character are ignored.',
+        'note': COMMON_TRUST + 'Not decided: panics inside okkhor/regex/poriborton/emojicon, sort panic-freedom for non-total comparators, RefCell double borrow, time complexity beyond termination; T2 functions (split, internal_backspace_step, search_dictionary, include_from_dictionary, layout_get_value) only have assumed contracts here.',
+    },
+    'C02': {
+        'level': 'proof',
+        'units': ['rank', 'fixed_session', 'phon', 'pmeth'],
+        'technique': 'Verus postcondition sg_ok (len>=1, selection<len, auxiliary==composition) on every event function; read-out preconditions',
+        'claim': 'Proof that every key/backspace event of both methods returns a suggestion with >=1 candidate, selection < length (given a selection valid for the list shown before) and auxiliary text equal to the composition, and that every index below the length is readable (read-out functions verified with exactly those preconditions).',
+        'note': COMMON_TRUST + 'std list-length specs (sort, dedup, truncate) assumed.',
+    },
+    'C03': {
+        'level': 'proof',
+        'units': ['layout', 'util', 'phon', 'pmeth'],
+        'technique': 'Verus: keycode_to_char == riti.h table; suggest_only_phonetic == avro(p)+avro(w)+avro(t) over split_spec; statement-level split lemmas',
+        'claim': 'Proof that the key-to-character table equals the one derived from riti.h, that the buffer is exactly the typed characters, that with suggestions off the result is avro(leading)+avro(word)+avro(trailing) for the three-way split, with lemmas turning the split spec into the statement wording (word over letters/digits wrapped in punctuation), and that with suggestions on that transliteration (modulo curling) is pushed into the list.',
+        'note': COMMON_TRUST + 'okkhor (avro) is an uninterpreted function; SplittedString::split itself is T2: assumed contract == split_spec, bounded conformance check.',
+    },
+    'C04': {
+        'level': 'proof',
+        'units': ['layout', 'fixed_pkv_off', 'fixed_session'],
+        'technique': 'Verus: get_char_for_key for all u16 codes vs riti.h-generated table; plane chosen by the AltGr bit only; frame/append postconditions of get_suggestion',
+        'claim': 'Proof over all 65536 key codes, all modifier bytes and both number-pad settings that the value handed to the composer is exactly the layout entry the riti.h key name designates (plane from the AltGr bit only, key pad only with the option on, empty/missing entry = nothing), that a key without a value changes no state, and that with all helpers off an idle context holds exactly that value afterwards.',
+        'note': COMMON_TRUST + 'layout_get_value(_numpad) (format!/closure) are T2: assumed contract over the abstract layout map, finite call-site conformance check; the transcription of riti.h macro names into entry names is hand-written (tools/gen_keytable.py).',
+    },
+    'C05': {
+        'level': 'proof',
+        'units': ['phon', 'pmeth'],
+        'technique': 'Verus: memo-transparency invariant ph_cache_ok + functional postcondition list == ph_list(text, config, data, memo)',
+        'claim': 'Proof that every memo entry is the direct-candidate list of its key (a pure function of the key, the data and the user list), that the memo only grows by the word part of the current text, is never modified otherwise and is cleared when the user list is reloaded, and that the returned list is a spec function ph_list of (text, configuration, data, memo).',
+        'note': COMMON_TRUST + 'The corollary "same list for every history" additionally needs the prefixes-memoised invariant (not yet proved: stated in DESIGN); include_from_dictionary, split are T2; sort assumed to be a function of ranks; "other contexts in the same process" rests on safe Rust aliasing + a scan for statics.',
+    },
+    'C06': {
+        'level': 'proof',
+        'units': ['fixed_session', 'fixed_pkv_common', 'pmeth', 'rank'],
+        'technique': 'Verus postconditions: reset state after terminating events, truthful session flag, strictly decreasing measure, wf invariant (idle => no raw keys; scratch list overwritten before read)',
+        'claim': 'Proof for both methods that commit, finish, ctrl-backspace and any backspace returning an empty suggestion leave the abstract state of a new context, that the session flag is exactly "composition non-empty or a sign waiting", that an idle backspace changes nothing, that every backspace strictly decreases a measure, that non-empty pre-edit implies an open session, and that the scratch list read by later events is a function of the current text only.',
+        'note': COMMON_TRUST + 'Equality with a new context is at the level of the abstract state (buffer, raw keys, waiting sign; memo transparent by C05).',
+    },
+    'C07': {
+        'level': 'proof',
+        'units': ['rank', 'util', 'phon'],
+        'technique': 'Verus: Rank::cmp == rank_cmp (class, number); assembly postcondition of suggest; push_checked duplicate-freedom at ranked-value level',
+        'claim': 'Proof that the comparator is the documented order, that candidate ranks are First(auto-correct, user entry first), Other(10*distance), Last(transliteration,2), Last(English,3), that the list handed to the sort is exactly that assembly with text-duplicates suppressed by push_checked, and that the result is the (assumed stable) sort of it.',
+        'note': COMMON_TRUST + 'Sortedness is conditional on std sort + the comparator being a total preorder on the elements present (emoji numbers 1..9 vs multiples of 10: data precondition); edit distance <= 25 (data precondition).',
+    },
+    'C08': {
+        'level': 'proof',
+        'units': ['phon', 'util'],
+        'technique': 'Verus: full functional postcondition of add_suffix_to_suggestions (every split point x every memoised base x three joining rules) with loop invariants',
+        'claim': 'Proof that the suffix-built candidates are exactly: for every split point, in order, with a known suffix and a memoised base, every memoised candidate of the base joined by the three rules of the statement (rank preserved) -- soundness and completeness in one postcondition; is_vowel/is_kar proved equal to their sets.',
+        'note': COMMON_TRUST + 'include_from_dictionary (regex) is T2: assumed contract ph_dict; ASCII byte/char bridge axioms for &s[a..b].',
+    },
+    'C09': {
+        'level': 'proof',
+        'units': ['pmeth', 'phon'],
+        'technique': 'Verus: candidate_committed postcondition over the String-keyed map view (learned value = word part of the candidate; no-op when preselected)',
+        'claim': 'Proof that committing the preselected candidate (or with suggestions off) leaves the store unchanged, and that otherwise exactly one entry is written: word part of the typed text -> word part (colon mode) of the committed candidate, all other entries untouched, independent of the save result; get_prev_selection returns an in-range index.',
+        'note': COMMON_TRUST + 'The look-up side (get_prev_selection == position of the rebuilt text) is only proved safe and in range so far; serde round trip and disk atomicity are not decided.',
+    },
+    'C10': {
+        'level': 'proof',
+        'units': ['pmeth', 'phon'],
+        'technique': 'Verus with adversarial environment stubs: fs/serde/time functions may fail or return anything; unwrap preconditions must hold for every outcome',
+        'claim': 'Proof that PhoneticMethod::new, update_engine and candidate_committed are panic-free when every file-system and JSON operation may fail or return arbitrary maps (including empty strings), that the invariants hold afterwards for every outcome, and that the suffix/selection code never unwraps on values taken from those maps.',
+        'note': COMMON_TRUST + 'Assumed: metadata()/modified() of a just-opened file succeed; serde_json::to_string of a string map succeeds; read() of an open file does not fail.',
+    },
+    'C11': {
+        'level': 'proof',
+        'units': ['pmeth', 'fixed_session'],
+        'technique': 'Verus: update_engine re-establishes the memo invariant w.r.t. the reloaded list; methods hold no option state (all contracts are functions of the config argument)',
+        'claim': 'Proof that after update_engine the memo is transparent w.r.t. the user list then in force for every data set (so no stale candidate survives a reload or a removed file), that FixedMethod::update_engine changes nothing, and that every operation contract depends on options only through its config argument (the method structs have no option fields).',
+        'note': COMMON_TRUST + 'Layout switch and storing the new config happen in src/context.rs (pinned glue); equality of the reloaded list with what a fresh context reads depends on the file system and is not decided (mtime granularity).',
+    },
     'C12': {
         'level': 'proof',
-        'units': ['fixed_pkv_off'],
-        'thorough_units': [],
-        'kani': [],
-        'bounded': [],
-        'technique': 'Verus contracts on the extracted real process_key_value vs a rule-chain spec function',
-        'claim': 'Deductive proof (Verus/Z3) that the real process_key_value, cut out of /repo on every run, satisfies for ALL buffers, key values and option settings the postcondition buffer\' == c12(buffer, value, options) written from the property statement; character-class predicates proved equal to explicit sets.',
-        'note': 'Trusted: Verus/Z3/rustc, the extractor (round-trip checked), std contracts added by assume_specification (Chars::last/count, Rev::nth, str::contains), the transcription of the statement into c12(); reph branch is an uninterpreted function here (C13).',
+        'units': ['fixed_pkv_off', 'fixed_session'],
+        'technique': 'Verus contracts on the extracted real process_key_value vs a rule-chain spec function c12()',
+        'claim': 'Deductive proof that the real process_key_value satisfies for ALL buffers, key values and the 16 option settings buffer\' == c12(buffer, value, options), c12 being the priority chain of the statement; character classes and the punctuation set proved equal to explicit sets; backspace removes exactly the last code point.',
+        'note': COMMON_TRUST + 'The transcription of the statement into c12() is hand-written.',
+    },
+    'C13': {
+        'level': 'proof',
+        'units': ['fixed_reph', 'fixed_pkv_off', 'fixed_pkv_common'],
+        'technique': 'Verus loop invariant tying the real right-to-left scan to a recursive scan spec; conservation postcondition; dispatch clauses',
+        'claim': 'Proof that insert_old_style_reph turns p into p with reph inserted at exactly one position (nothing else changed, never panics, also for empty p), that the position is the one computed by the scan specification, and that the reph key reaches it exactly when the option is on (plain append otherwise).',
+        'note': COMMON_TRUST + 'internal_backspace_step (closure fold) is T2 with a bounded conformance check; the lemma scan position == statement position for well-formed text is checked by the bounded reph check (<= 5 code points, 10-symbol class alphabet) until the spec-level induction is added.',
+    },
+    'C14': {
+        'level': 'proof',
+        'units': ['fixed_pkv_on', 'fixed_session'],
+        'technique': 'Verus: process_key_value with the option on == transition function step_on (pending-sign state machine); termination; session/backspace clauses',
+        'claim': 'Proof that with the option on every key is exactly one step of the pending-sign state machine written from the statement (capture, carry across hasanta, re-attach, two-part fusion, destroy-or-vowelise), that the recursion terminates, that a waiting sign counts as a session and is discarded by one backspace.',
+        'note': COMMON_TRUST + 'The word-level equivalence with Unicode-order typing is proved only for the single-consonant syllable lemma so far; known finding: ra + zo-fola under a left-standing sign.',
+    },
+    'C15': {
+        'level': 'proof',
+        'units': ['fixed_session'],
+        'technique': 'Verus: functional postcondition list == fx_list(text, raw keys, options, data) for create_dictionary_suggestion, with lemma 1 <= len <= 9',
+        'claim': 'Proof that the fixed-method list is exactly: First(word) + dictionary matches, adjacent duplicates removed, wrapped in the (curled) punctuation, emoji added, sorted, cut to nine (eight + raw keys when English is on and the text differs from the keys), for all inputs.',
+        'note': COMMON_TRUST + 'search_dictionary (regex) is T2: assumed contract fx_dict; ordering claims conditional on std sort_unstable + total preorder; dedup removes only adjacent duplicates (data precondition on table order).',
+    },
+    'C16': {
+        'level': 'proof',
+        'units': ['rank', 'fixed_session', 'phon', 'pmeth'],
+        'technique': 'Verus: ANSI clauses of the list functions, get_pre_edit_text == bijoy(candidate) / candidate, option getter',
+        'claim': 'Proof that in ANSI mode neither method adds emoji, emoticon or raw-English candidates (English getter = option and not ANSI), that every Suggestion carries the ANSI flag of the configuration, and that pre-edit text is bijoy(candidate) with the flag and the candidate itself without.',
+        'note': COMMON_TRUST + 'Statements about poriborton output (no Bengali-block code point, totality on the dictionary) are not decided.',
+    },
+    'C17': {
+        'level': 'proof',
+        'units': ['util', 'fixed_session', 'phon'],
+        'technique': 'Verus: smart_quoter == pointwise curl maps with loop invariants; placement clause (applied once, after splitting, only with the option on) in both list functions',
+        'claim': 'Proof that smart_quoter maps straight quotes before a non-empty word to opening and after it to closing curved quotes and changes nothing else (nothing at all for punctuation-only text), and that both methods apply it exactly when the option is on, to the split parts that every non-raw candidate is wrapped in.',
+        'note': COMMON_TRUST + 'The relational corollary (uncurl(list on) == list off) is not yet a checked lemma.',
+    },
+    'C18': {
+        'level': 'other',
+        'units': ['fixed_session', 'phon', 'rank'],
+        'technique': 'Verus: emoticon/emoji clauses of the assembled list around an abstracted 5-line region (assumed contract)',
+        'claim': 'Proof of the emoticon branch (emoji pushed with rank 1; literal text kept unless it is the transliteration itself) and of what reaches the emoji-name region (same punctuation as the other candidates, only outside ANSI mode, only if no emoticon matched); the region that builds the named emoji items is an assumed contract.',
+        'note': COMMON_TRUST + 'Region content (zip(1..).map closure + extend) is abstracted; emojicon tables are T3.',
+        'explanation': 'Contract proof around an abstracted region: see coverage.obligation_list; the region itself is an assumption.',
     },
 }
 
-NOT_YET = {}
+NOT_YET = {
+    'C19': 'Kani harnesses for the FFI layer are not built yet (work in progress)',
+}
 
 
 def units_for(prop, tier):
